@@ -6,7 +6,7 @@
    The leader key disappears only through lease expiry / revocation or PD's own (revision-guarded)
    DeleteLeaderKey; an operator deleting it by hand is outside the model (DESIGN.md, E1). *)
 From Coq Require Import NArith.
-From PDV Require Import lib.Base model.C03_Leader proof.C03_LeaderProof proof.C03_Sites.
+From PDV Require Import lib.Base model.C03_Leader model.C03_Env proof.C03_LeaderProof proof.C03_Sites proof.C03_EnvRefine.
 Local Open Scope N_scope.
 
 (* at any instant at most one member serves as leader of a given leadership *)
@@ -72,8 +72,25 @@ Example C03_nonvacuous :
   (is_leader s 1, is_leader s 0, data s 1%nat, map snd (served s)) = (true, false, Some (0%nat, 7%Z), [1; 0; 0]%nat).
 Proof. vm_compute. reflexivity. Qed.
 
+(* Interface to C01/C02/C05: every history of the election model, projected to (who owns the record, which members
+   evaluate IsLeader() to true), is a run of the leadership environment the timestamp model assumes
+   (model/C03_Env.v): each environment label is enabled when taken - a record is only created when there is none,
+   only the owner of the record starts believing again, and the record never disappears under a member that
+   still believes.  props/C01.v (C01_accepts_leadership_environment) shows the timestamp model accepts these labels. *)
+Theorem C03_refines_leadership_environment : forall ls,
+  exists e, eexec env0 (env_trace ls) = Some e /\ env_eq e (env_of (exec step init ls)).
+Proof. exact election_refines_environment. Qed.
+
+Example C03_environment_trace_of_handover :
+  env_trace [LGrantStart 0 3; LGrantDone 0 true; LCampaignTxn 0 Ok true; LTick 2; LKeepStart 0; LKeepDone 0; LTick 2;
+             LTick 5; LKeepStart 0; LKeepDone 0; LExpire 0;
+             LGrantStart 1 3; LGrantDone 1 true; LCampaignTxn 1 ErrApplied false; LTick 9; LExpire 1]
+  = [EElect 0; EValidOff 0; EValidOn 0; EValidOff 0; EOwnerGone; EElect 1; EValidOff 1; EOwnerGone].
+Proof. vm_compute. reflexivity. Qed.
+
 Print Assumptions C03_at_most_one_serving.
 Print Assumptions C03_valid_lease_owns_key.
 Print Assumptions C03_campaign_only_without_record.
 Print Assumptions C03_expired_or_resigned_serves_nothing.
 Print Assumptions C03_non_owner_write_rejected.
+Print Assumptions C03_refines_leadership_environment.
